@@ -237,7 +237,7 @@ pub fn expected_probes(prop: &str) -> &'static [&'static str] {
         "C03" => &["agree:accept:all", "adversary:agree:accept:a1", "adversary:agree:reject:a0", "adversary:identity-commitment-produced", "relation-b-repaired"],
         "C04" => &["rejected-at-decoding", "tampered-proof-still-decoded", "decoded-to-identical-object"],
         "C05" => &["twin-accepted", "misdelivery-same-bound-context(no-demand)"],
-        "C06" => &["followup-equal", "rejected-delivery-history-checked", "stopped-at-identity-point"],
+        "C06" => &["followup-equal", "rejected-delivery-history-checked", "stopped-at-identity-point", "batch-member-histories-checked"],
         "C07" => &["batch-rng-used", "scenario:empty-batch:all-valid", "scenario:all-honest:all-valid", "scenario:duplicate-delivery:all-valid", "scenario:plus-minus-d:a:some-invalid", "scenario:plus-minus-d:b:some-invalid", "scenario:zero-sum-triple:some-invalid", "scenario:affine-weight-cancelling-triple:some-invalid", "scenario:quadratic-weight-cancelling-quadruple:some-invalid", "scenario:misdelivered-member:some-invalid", "scenario:one-bad-witness:some-invalid", "scenario:one-tampered:some-invalid"],
         "C08" => &["garbage-rejected-at-decoding", "garbage-decoded", "stream-read-fault-fired", "stream-write-fault-fired"],
         "C09" => &["keying-ok", "independence-checked", "attribution-total-and-injective", "opened-against-refprover", "statement-fixed-component-equal(allowed)"],
